@@ -1,15 +1,26 @@
 import ClvmModel.Serde.Incremental
+import ClvmModel.Serde.TreeCache
 import ClvmModel.Proto.Util
 /-!
-`INC <id> <sentinel> <history> out=<outs>` — validation of an incremental-serializer history recorded
-from the real crate (see `harness/src/incremental.rs` for the grammar).  The model runs its own
-`Ser.add` / `Ser.restore` with the *checked replay policy* of each step and answers
-`ok <r1>,<r2>,… <complete|partial>` when every recorded step is reproduced, every recorded
-back-reference is valid for the parse-stack mirror and (on completion) `deBrNew` decodes the final
-bytes to the assembled tree; `err invalid` otherwise.  `INCWHY` (model only) names the failed check.
+`INC <id> <sentinel> <history> out=<outs>` (grammar: `harness/src/incremental.rs`).
+
+The Lean side runs the **faithful** model (`Serde/TreeCache.lean`: `TreeCache` + `Serializer`) on the
+history and compares, step by step, its own verdicts and bytes with the ones recorded from the real
+crate — exactly.  Replies:
+* `err model-differs step=<i> model=<what the model has>`: the crate's recorded step is not what the model computes
+  (never equal to an implementation reply: a correspondence break);
+* `ok <r1>,… <complete|partial>`: all steps agree and (if complete) `deBrNew` decodes the final bytes
+  to the tree assembled from the retained additions;
+* `err wrong-decode known=<tag>`: all steps agree, the history is complete and the bytes do **not**
+  decode to the assembled tree — a violation of C19 that the model *reproduces*.  `<tag>` names the
+  shape of the history (`L-…`, `N-…`, `M-…`, or `none`), computed from the request alone by the same
+  rule on both sides; `./check` reports an agreed wrong decode under that known finding and everything
+  else (the model does not reproduce the bytes, or no known shape) as a new violation.
+`INCWHY` (model only): the strict validation of the protocol model (`validate`) that the C19 theorems
+are about; `INCX` (model only): the faithful model's own per-step outputs.
 -/
 namespace Clvm.Proto
-open Clvm.Serde.Incremental
+open Clvm.Serde.Incremental Clvm.Serde.TreeCache
 
 def parseSent (s : String) : Option (Option Bytes) :=
   if s == "none" then some none
@@ -19,13 +30,21 @@ def parseSent (s : String) : Option (Option Bytes) :=
     | ["atom", m] => (bytesOfHex m).map some
     | _ => none
 
-def parseReq (s : String) : Option Req :=
+inductive FReq where
+  | add (shared : Bool) (t : Tree)
+  | undo (k : Nat) (oldest : Bool)
+
+def parseFReq (s : String) : Option FReq :=
   match s.splitOn ":" with
-  | ["add", h] => (Wire.treeOfHex h).map Req.add
-  | ["adds", h] => (Wire.treeOfHex h).map Req.add
-  | ["undo", k] => k.toNat?.map Req.undo
-  | ["undo0", k] => k.toNat?.map Req.undo
+  | ["add", h] => (Wire.treeOfHex h).map (FReq.add false)
+  | ["adds", h] => (Wire.treeOfHex h).map (FReq.add true)
+  | ["undo", k] => k.toNat?.map (FReq.undo · false)
+  | ["undo0", k] => k.toNat?.map (FReq.undo · true)
   | _ => none
+
+def FReq.toReq : FReq → Req
+  | .add _ t => .add t
+  | .undo k _ => .undo k
 
 def parseRec (s : String) : Option Rec :=
   if s == "p" then some .panicked
@@ -37,11 +56,11 @@ def parseRec (s : String) : Option Rec :=
     | _ => none
 
 /-- are the undo positions meaningful (same rule as the harness) -/
-def indicesOk : List (Req × Rec) → Nat → Nat → Bool
+def indicesOk : List (FReq × Rec) → Nat → Nat → Bool
   | [], _, _ => true
-  | (.add _, .added _ _) :: r, n, _ => indicesOk r (n + 1) (n + 1)
-  | (.add _, .panicked) :: r, n, avail => indicesOk r n avail
-  | (.undo k, .undone _) :: r, _, avail => if k < 1 || k > avail then false else indicesOk r (k - 1) k
+  | (.add _ _, .added _ _) :: r, n, _ => indicesOk r (n + 1) (n + 1)
+  | (.add _ _, .panicked) :: r, n, avail => indicesOk r n avail
+  | (.undo k _, .undone _) :: r, _, avail => if k < 1 || k > avail then false else indicesOk r (k - 1) k
   | _, _, _ => false
 
 def fmtRec : Rec → String
@@ -49,12 +68,12 @@ def fmtRec : Rec → String
   | .undone out => s!"u:{out.length}"
   | .panicked => "p"
 
-def incRequest (args : List String) : Option (Option Bytes × List (Req × Rec)) :=
+def incRequest (args : List String) : Option (Option Bytes × List (FReq × Rec)) :=
   match args with
   | [sent, hist, outs] => do
     let sentinel ← parseSent sent
     if !outs.startsWith "out=" then none
-    let reqs ← (hist.splitOn ";").mapM parseReq
+    let reqs ← (hist.splitOn ";").mapM parseFReq
     let recs ← (((outs.drop 4).toString).splitOn ";").mapM parseRec
     if reqs.length != recs.length then none
     let steps := reqs.zip recs
@@ -62,15 +81,139 @@ def incRequest (args : List String) : Option (Option Bytes × List (Req × Rec))
     some (sentinel, steps)
   | _ => none
 
-def handleIncWith (why : Bool) (args : List String) : Option String := do
-  let (sentinel, steps) ← incRequest args
-  -- `INCWHY`: the strict check the theorems are about; `INC`: the lenient verdict (see the model)
-  match (if why then validate sentinel steps else validateLenient sentinel steps) with
-  | .ok r =>
-    some s!"ok {",".intercalate (steps.map (fun x => fmtRec x.2))} {if r.done then "complete" else "partial"}"
-  | .error e => some (if why then "err " ++ e else "err invalid")
+/-! ### the shape tag of a history (same rule in `harness/src/incremental.rs::shape_tag`) -/
 
-def handleInc (args : List String) : Option String := handleIncWith false args
-def handleIncWhy (args : List String) : Option String := handleIncWith true args
+def countMarker (m : Bytes) : Tree → Nat
+  | .atom b => if b = m then 1 else 0
+  | .pair l r => countMarker m l + countMarker m r
+
+def isAdd : FReq → Bool
+  | .add _ _ => true
+  | .undo _ _ => false
+
+/-- L: an addition with ≥ 2 sentinels, followed (anywhere later) by another addition -/
+def shapeL (m : Bytes) : List FReq → Bool
+  | [] => false
+  | .add _ t :: r => (countMarker m t ≥ 2 && r.any isAdd) || shapeL m r
+  | _ :: r => shapeL m r
+
+/-- pairs with a sentinel below, in post-order (left, right, node) -/
+def holedPairs (m : Bytes) : Tree → List Tree → Bool × List Tree
+  | .atom b, acc => (b = m, acc)
+  | .pair l r, acc =>
+    let (hl, acc1) := holedPairs m l acc
+    let (hr, acc2) := holedPairs m r acc1
+    if hl || hr then (true, Tree.pair l r :: acc2) else (false, acc2)
+
+def hasDup : List Tree → Bool
+  | [] => false
+  | x :: r => r.contains x || hasDup r
+
+/-- N: the same sentinel-containing pair occurs twice among the `adds` trees -/
+def shapeN (m : Bytes) (steps : List FReq) : Bool :=
+  hasDup (steps.foldl (fun acc s => match s with
+    | .add true t => (holedPairs m t acc).2
+    | _ => acc) [])
+
+/-- M: an undo followed (anywhere later) by an addition -/
+def shapeM : List FReq → Bool
+  | [] => false
+  | .undo _ _ :: r => r.any isAdd || shapeM r
+  | _ :: r => shapeM r
+
+def shapeTag (sentinel : Option Bytes) (steps : List FReq) : String :=
+  match sentinel with
+  | some m =>
+    if shapeL m steps then "L-incremental-multi-sentinel"
+    else if shapeN m steps then "N-incremental-shared-sentinel-node"
+    else if shapeM steps then "M-incremental-undo-stale-parents"
+    else "none"
+  | none => if shapeM steps then "M-incremental-undo-stale-parents" else "none"
+
+/-! ### running the faithful model -/
+
+structure FRun where
+  s : FSer
+  /-- undos[i]: the still valid undo states for position i+1, oldest first -/
+  undos : List (List FUndo)
+  trees : List Tree
+  done : Bool
+  next : Nat   -- next free `NodePtr` number for `add:` steps
+
+def listSet {α : Type} (l : List α) (i : Nat) (x : α) : List α :=
+  if i < l.length then l.set i x else l ++ [x]
+
+/-- one step of the model; the outcome in the notation of the recorded outputs -/
+def fStep (r : FRun) : FReq → Except Err (FRun × Rec)
+  | .add shared t =>
+    let (node, next) := if shared then (labelShared t, r.next) else labelFresh t r.next
+    match r.s.add node with
+    | .error (.Panic m) =>
+      -- the entry assertion of `add` (called after completion) leaves the serializer untouched
+      if r.done then .ok ({ r with next := next }, .panicked) else .error (.Panic m)
+    | .error e => .error e
+    | .ok (s', done, u) =>
+      let i := r.trees.length
+      let us := (r.undos.take (i + 1))
+      let cur := us.getD i []
+      .ok ({ s := s', undos := listSet us i (cur ++ [u]), trees := r.trees ++ [t], done := done, next := next },
+           .added done s'.output.buf)
+  | .undo k oldest =>
+    match r.undos[k - 1]? with
+    | none => .error (.InvalidOpArg "undo index")
+    | some us =>
+      match (if oldest then us.head? else us.getLast?) with
+      | none => .error (.InvalidOpArg "undo index")
+      | some u =>
+        match r.s.restore u with
+        | .error e => .error e
+        | .ok s' =>
+          .ok ({ r with s := s', undos := r.undos.take k, trees := r.trees.take (k - 1), done := false }, .undone s'.output.buf)
+
+def recEq : Rec → Rec → Bool
+  | .added d o, .added d' o' => d == d' && o == o'
+  | .undone o, .undone o' => o == o'
+  | .panicked, .panicked => true
+  | _, _ => false
+
+def recFull : Rec → String
+  | .added d out => s!"{if d then 1 else 0}:{hexOrDash out}"
+  | .undone out => s!"u:{hexOrDash out}"
+  | .panicked => "p"
+
+/-- all steps; `.error (i, what the model has)` at the first step that differs from the record -/
+def fSteps (r : FRun) : List (FReq × Rec) → Nat → Except (Nat × String) FRun
+  | [], _ => .ok r
+  | (q, c) :: rest, i =>
+    match fStep r q with
+    | .error e => .error (i, fmtErr e)
+    | .ok (r', got) => if recEq got c then fSteps r' rest (i + 1) else .error (i, recFull got)
+
+def handleInc (args : List String) : Option String := do
+  let (sentinel, steps) ← incRequest args
+  match fSteps { s := FSer.new sentinel, undos := [], trees := [], done := false, next := 0 } steps 1 with
+  | .error (i, what) => some s!"err model-differs step={i} model={what}"
+  | .ok r =>
+    let sizes := ",".intercalate (steps.map (fun x => fmtRec x.2))
+    if !r.done then some s!"ok {sizes} partial"
+    else
+      let good : Bool :=
+        match assemble sentinel r.trees with
+        | none => false
+        | some want =>
+          match Clvm.Serde.Backref.deBrNew r.s.output.buf [.sexp] [] Clvm.Serde.Backref.Ctr.default with
+          | .ok (t, rest, _) => t == want && rest.isEmpty
+          | .error _ => false
+      if good then some s!"ok {sizes} complete"
+      else some s!"err wrong-decode known={shapeTag sentinel (steps.map (·.1))}"
+
+/-- `INCWHY`: the strict validation of the protocol model -/
+def handleIncWhy (args : List String) : Option String := do
+  let (sentinel, steps) ← incRequest args
+  let steps' := steps.map (fun x => (x.1.toReq, x.2))
+  match validate sentinel steps' with
+  | .ok r =>
+    some s!"ok {",".intercalate (steps'.map (fun x => fmtRec x.2))} {if r.done then "complete" else "partial"}"
+  | .error e => some ("err " ++ e)
 
 end Clvm.Proto
